@@ -457,5 +457,5 @@ SUBS = [
     Sub("eg_regression_sampling", check_eg_regression, strategy=lambda: _eg_case(regression=True), quick=50, thorough=1200,
         shards=16, shrink_quick=False, floors={"nt": 0.08}),
     Sub("prediction_histories", check_history, strategy=_history_case, quick=80, thorough=2000, shards=16, shrink_quick=False,
-        floors={"nt": 0.02, "pickle": 0.234}),
+        floors={"nt": 0.02, "pickle": 0.203}),
 ]
